@@ -32,7 +32,7 @@ theorem luFactor_identity (laws : MagLaws K) (P : Params K Rat) (hP : Legal P) (
       ((List.range (j + 1)).map fun k =>
         ((luFactor P b).U.getD j #[]).getD k 0 * ((luFactor P b).L.getD k #[]).get i).sum := by
   rw [luFactor_eq_run] at h ⊢
-  have inv := run_inv laws P hP.u_pos hP.u_le_one hP.col_size b P.n h
+  have inv := run_inv laws P (le_of_lt hP.u_pos) hP.u_le_one hP.col_size b P.n h
   rw [inv.ident j hj i hi, dotL_prev _ _ (j + 1) i (by rw [Array.length_toList]; exact inv.usize j hj)]
   congr 1
   apply List.map_congr_left
@@ -49,8 +49,8 @@ theorem luFactor_unit_lower (laws : MagLaws K) (P : Params K Rat) (hP : Legal P)
     ∀ k' < k, ((luFactor P b).L.getD k #[]).get ((luFactor P b).piv.getD k' 0) = 0 := by
   rw [luFactor_eq_run] at h ⊢
   have hk' := run_info_le P b P.n (k + 1) (by omega) h
-  have inv := run_inv laws P hP.u_pos hP.u_le_one hP.col_size b (k + 1) hk'
-  have invn := run_inv laws P hP.u_pos hP.u_le_one hP.col_size b P.n h
+  have inv := run_inv laws P (le_of_lt hP.u_pos) hP.u_le_one hP.col_size b (k + 1) hk'
+  have invn := run_inv laws P (le_of_lt hP.u_pos) hP.u_le_one hP.col_size b P.n h
   -- read the property off `UnitLower (prev st n)`
   have key : ∀ (Ls : List (Nat × Vec K)), UnitLower Ls → ∀ (a : Nat) (x : Nat × Vec K), Ls[a]? = some x →
       x.2.get x.1 = 1 ∧ ∀ (a' : Nat) (y : Nat × Vec K), a' < a → Ls[a']? = some y → x.2.get y.1 = 0 := by
@@ -83,7 +83,7 @@ theorem luFactor_diag_nonzero (laws : MagLaws K) (P : Params K Rat) (hP : Legal 
     (h : (luFactor P b).info = 0) (k : Nat) (hk : k < P.n) :
     ((luFactor P b).U.getD k #[]).getD k 0 ≠ 0 ∧ ((luFactor P b).U.getD k #[]).size = k + 1 := by
   rw [luFactor_eq_run] at h ⊢
-  have inv := run_inv laws P hP.u_pos hP.u_le_one hP.col_size b P.n h
+  have inv := run_inv laws P (le_of_lt hP.u_pos) hP.u_le_one hP.col_size b P.n h
   exact ⟨inv.udiag k hk, inv.usize k hk⟩
 
 /-- **C02 (the row permutation is a bijection).** The pivot rows are pairwise distinct rows of A, one
@@ -94,7 +94,7 @@ theorem luFactor_pivots_injective (laws : MagLaws K) (P : Params K Rat) (hP : Le
     (luFactor P b).piv.size = P.n ∧ (luFactor P b).piv.toList.Nodup ∧
     ∀ k < P.n, (luFactor P b).piv.getD k 0 < P.m := by
   rw [luFactor_eq_run] at h ⊢
-  have inv := run_inv laws P hP.u_pos hP.u_le_one hP.col_size b P.n h
+  have inv := run_inv laws P (le_of_lt hP.u_pos) hP.u_le_one hP.col_size b P.n h
   exact ⟨inv.sizes.1, inv.nodup, inv.prange⟩
 
 /-- **C02 (threshold pivoting, numerator form).** For every row `i` that was a pivot candidate of
@@ -106,7 +106,7 @@ theorem luFactor_multiplier_bound (laws : MagLaws K) (P : Params K Rat) (hP : Le
     P.u * (Mag.abs1 (((luFactor P b).L.getD k #[]).get i * ((luFactor P b).U.getD k #[]).getD k 0) : Rat) ≤
       (Mag.abs1 (((luFactor P b).U.getD k #[]).getD k 0) : Rat) := by
   rw [luFactor_eq_run] at h hnot ⊢
-  have inv := run_inv laws P hP.u_pos hP.u_le_one hP.col_size b P.n h
+  have inv := run_inv laws P (le_of_lt hP.u_pos) hP.u_le_one hP.col_size b P.n h
   exact inv.mult k hk i hi hnot
 
 /-- **C02 (multipliers bounded by 1/u, real data).** With a multiplicative magnitude (`|ab| = |a||b|`,
